@@ -142,7 +142,7 @@ static void client (void *arg) {
 				S.notify_returned[a] = 1;
 				S.ret[t] = 1;
 			} else if (!strcmp (o->name, "poll") || !strcmp (o->name, "wait")) {
-				int r, must = 0;
+				int r, must = 0, seen0 = S.seen_notified[a];   /* what had been observed before this observation began (an overlapping one does not count) */
 				{ int x = a, k; for (k = 0; k < MAXOBJ && x != 0; k++, x = S.lpar[x]) if (S.notify_returned[x]) must = 1; }   /* an ancestor's (or its own) notify has returned before this observation began */
 				if (!strcmp (o->name, "wait")) { S.wobjs[t][0] = a; S.nwobjs[t] = 1; S.nwbase[t] = NULL; S.nwinit[t] = 0; }
 				r = !strcmp (o->name, "poll") ? nsync_note_is_notified (S.note[a]) : nsync_note_wait (S.note[a], deadline (o->dl));
@@ -154,7 +154,7 @@ static void client (void *arg) {
 					S.seen_notified[a] = 1;
 				} else {
 					if (must) rt_violation ("O-lin", "note %d observed un-notified although nsync_note_notify of it or of an ancestor had already returned", a);
-					if (S.seen_notified[a]) rt_violation ("O-lin", "note %d observed un-notified after it had been observed notified", a);
+					if (seen0) rt_violation ("O-lin", "note %d observed un-notified after it had been observed notified", a);
 					if (!strcmp (o->name, "wait") && !expired (o->dl)) rt_violation ("O-ret", "nsync_note_wait(note %d) timed out at clock %ld before its deadline %d", a, (long) (rt_now () - RT_T0), o->dl);
 				}
 				S.ret[t] = r;
@@ -328,7 +328,9 @@ static size_t put_note_list (char *buf, size_t n, nsync_dll_list_ list) {
 #define PUTARR(name, expr) do { o += (size_t) snprintf (buf + o, n - o, " " name "=["); \
 	for (i = 0; i < S.n; i++) o += (size_t) snprintf (buf + o, n - o, "%s%d", i ? "," : "", (int) (expr)); \
 	o += (size_t) snprintf (buf + o, n - o, "]"); } while (0)
-static int sem_of (int i) { waiter *w = S.wt[i] ? S.wt[i] : (waiter *) rt_tls_waiter (i); return w ? *(volatile int *) &w->sem : 0; }
+/* the specification has one semaphore per thread; the code uses the thread's own waiter in nsync_wait_n and the harness's waiter in a
+   direct nsync_sem_wait_with_cancel_ call (a thread is in one of the two at a time) */
+static int sem_of (int i) { waiter *w = (waiter *) rt_tls_waiter (i); return (w ? *(volatile int *) &w->sem : 0) + (S.wt[i] ? *(volatile int *) &S.wt[i]->sem : 0); }
 static void obs (char *buf, size_t n) {
 	size_t o = 0; int i;
 	if (S.kind == K_COUNTER) {
